@@ -9,8 +9,41 @@ FAMILIES = [('trees', 300, 8000, {})]
 MONITORS = ['C05']
 
 
+def double_failures(rng, n):
+    """directed family: an until-block (also run(till=...)) in which two children fail in one time step, or a child
+    fails in the step in which the notification fires or the body raises.  The block fails ONCE; afterwards the
+    enclosing activity keeps running undisturbed (it suspends a few more times)."""
+    out = []
+    for _ in range(n):
+        d = rng.choice([1, 2, 3])
+        kids = [['do', 2, 1 + i, ['now'], False, [['await', ['delay', d]], ['raise', rng.choice([0, 1, 2])]]]
+                for i in range(rng.choice([1, 2, 2, 3]))]
+        how = rng.choice(['plain', 'fires', 'body-raises'])
+        cond = ['flag', 0] if how != 'fires' else rng.choice([['after', d], ['delay', d]])
+        tail = [['await', ['delay', d]], ['raise', 1]] if how == 'body-raises' else [['await', ['delay', 7]], ['log', 1]]
+        blk = ['until', 2, cond, kids + tail]
+        after = [['log', 2], ['await', ['delay', 1]], ['log', 3], ['await', ['instant']], ['log', 4], ['await', ['delay', 2]], ['log', 5]]
+        owner = [['try', [blk], [[['concurrent'], [['log', 20]]], [['exception'], [['log', 21]]]], []]] + after
+        till = None
+        roots = [owner]
+        if rng.random() < 0.3:
+            roots = [[['do', 1, 9, ['now'], False, owner], ['await', ['delay', 9]], ['log', 30]]]
+            roots = [[['scope', 1, roots[0]], ['log', 31]]]
+        out.append(('double-failures', dict(start=0, till=till, roots=roots, nflags=1, tracked=[0], nlocks=1, nqueues=1,
+                                            nchans=1, res=[])))
+    return out
+
+
+def _leaked_signal(sc, trace, probes, info):
+    """of C03's monitor only: an internal signal leaving run() (a scope ending twice shows up like this)"""
+    from harness import monitors
+    return [(e, f) for (e, f) in monitors.mon_C03(sc, trace, probes, info) if f is None and 'internal signal' in e]
+
+
 def run(ctx):
-    machine_prop.run(ctx, FAMILIES, MONITORS)
+    from harness import monitors
+    monitors.MONITORS['C05s'] = _leaked_signal
+    machine_prop.run(ctx, FAMILIES, MONITORS + ['C05s'], extra_scenarios=double_failures(ctx.rng, ctx.n(40, 800)))
 
 
 def search(ctx):
